@@ -16,8 +16,9 @@ def script_tla(scripts):
 
 
 def consts(sc):
-    return "  Threads = {%s}\n  Script <- MCScript\n  Keys = {%s}\n  Flavor = %s\n  MaxId = %d\n" % (
-        ", ".join(tla_str(t) for t in sc["threads"]), ", ".join(tla_str(k) for k in sc["keys"]), tla_str(sc["flavor"]), sc["maxid"])
+    amounts = sorted({o["v"] for ops in sc["scripts"].values() for o in ops if "v" in o} | {0})
+    return "  Threads = {%s}\n  Script <- MCScript\n  Keys = {%s}\n  Flavor = %s\n  MaxId = %d\n  RefAmounts = {%s}\n" % (
+        ", ".join(tla_str(t) for t in sc["threads"]), ", ".join(tla_str(k) for k in sc["keys"]), tla_str(sc["flavor"]), sc["maxid"], ", ".join(map(str, amounts)))
 
 
 def harness_scen(sc, kind=None):
@@ -55,7 +56,7 @@ INVS = "LockSafety OneChildPerKey FreshHandleIsCurrent IdsBounded"
 
 def run_scenario(ctx, exe, sc, label, stats, samples, model=True, nrandom=0, kinds=None, nproc=8):
     d = {"MCScript": script_tla(sc["scripts"])}
-    r = tlc(ctx, "VecImpl", "CONSTANTS\n%s\nSPECIFICATION Spec\nINVARIANTS %s\nPROPERTY Termination\nCHECK_DEADLOCK FALSE\n" % (consts(sc), INVS),
+    r = tlc(ctx, "VecImpl", "CONSTANTS\n%s\nSPECIFICATION Spec\nINVARIANTS %s\nPROPERTIES Termination RefinesVec\nCHECK_DEADLOCK FALSE\n" % (consts(sc), INVS),
             mc_text=mc_module("MC" + label, "VecImpl", d), mc_name="MC" + label, workers=8, label="inv" + label)
     if not r["ok"]:
         raise ToolError("VecImpl %s violates %s (specification error)\n%s" % (label, r["violated"], r["output"][-2500:]))
